@@ -192,6 +192,7 @@ def asmbench_unit(res):
     blank = z3.Function("line_is_blank", I_, B_)
     num = z3.Function("second_word_as_number", I_, R_)
     ncodes = z3.Function("n_operand_codes", I_, I_)
+    has_dash, codes_ok = z3.Function("name_has_operand_part", I_, B_), z3.Function("all_operand_codes_known", I_, B_)
     ok_tp, ok_lt = z3.Function("tp_in_a_window", R_, B_), z3.Function("lt_within_5_percent", R_, B_)
     v_tp, v_lt = z3.Function("snapped_tp", R_, R_), z3.Function("snapped_lt", R_, R_)
     st = {}
@@ -218,9 +219,17 @@ def asmbench_unit(res):
                 return SBool(self.j == other.j)
             raise Unsupported("comparison of a stripped line")
 
+        def sym_contains(self, ex_, item):
+            if item == "-":
+                return SBool(has_dash(self.j))
+            raise Unsupported("membership test on a stripped line")
+
         def sym_method(self, ex_, name, args, kw):
             if name == "split" and args == ["-"]:
-                return [("mnemonic-of-line", self.j), Codes(self.j)]
+                # 'MNEMONIC[-OP1[_OP2][...]]': the operand part is optional
+                if ex_.branch(has_dash(self.j)):
+                    return [("mnemonic-of-line", self.j), Codes(self.j)]
+                return [("mnemonic-of-line", self.j)]
             raise Unsupported("stripped line." + name)
 
     class Codes:
@@ -230,7 +239,10 @@ def asmbench_unit(res):
         def sym_method(self, ex_, name, args, kw):
             if name == "split" and args == ["_"]:
                 j = self.j
-                return SymSeq(ncodes(j), lambda k: ("code", j, k))
+                seq = SymSeq(ncodes(j), lambda k: ("code", j, k))
+                # A (decoder contract, verified in the decoder units): decoding raises ValueError iff a code is outside the naming convention
+                seq.sym_before_map = lambda ex__: None if ex__.branch(codes_ok(j)) else (_ for _ in ()).throw(PyRaise("ValueError", "unknown operand code"))
+                return seq
             raise Unsupported("operand codes." + name)
 
     class Words:
@@ -290,7 +302,9 @@ def asmbench_unit(res):
         # block k: lines 4k .. min(4k+4, N) - 1; statement: a malformed block stops the import at that block
         ln = z3.If(4 * k + 4 <= N, 4, N - 4 * k)
         allblank = z3.And([z3.Implies(4 * k + d < N, blank(4 * k + d)) for d in range(4)])
-        bad = z3.Or(ln < 3, z3.And(ln == 4, z3.Not(blank(4 * k + 3))), z3.Not(is_lat(4 * k + 1)), z3.Not(is_tp(4 * k + 2)))
+        bad = z3.Or(ln < 3, z3.And(ln == 4, z3.Not(blank(4 * k + 3))), z3.Not(is_lat(4 * k + 1)), z3.Not(is_tp(4 * k + 2)),
+                    # a name whose operand codes cannot be decoded: the block cannot be imported
+                    z3.And(has_dash(4 * k), z3.Not(codes_ok(4 * k))))
         return allblank, bad
 
     class Hook:
@@ -315,6 +329,13 @@ def asmbench_unit(res):
             kw = e.kw
             j = z3.FreshInt("j")
             ops = kw.get("operands")
+            if isinstance(ops, list) and ops == []:
+                # no operand part: an entry without operands
+                ex_.oblige("block/no-operand-part-no-operands", z3.Not(has_dash(4 * k)))
+                ops = SymSeq(z3.IntVal(0), lambda k_: ("decoded", ("code", 4 * k, k_), st["isa"]))
+                nops = z3.IntVal(0)
+            else:
+                nops = z3.If(has_dash(4 * k), ncodes(4 * k), 0)
             shape = isinstance(ops, SymSeq) and kw.get("mnemonic") is not None and isinstance(kw.get("mnemonic"), tuple) and set(kw) == {"mnemonic", "operands", "throughput", "latency", "port_pressure"} and kw["port_pressure"] is None
             if not shape:
                 ex_.oblige("block/entry-fields", False)
@@ -323,7 +344,7 @@ def asmbench_unit(res):
             okel = isinstance(el, tuple) and el[0] == "decoded" and isinstance(el[1], tuple) and el[1][0] == "code" and el[2] == st["isa"]
             tpv, ltv = kw["throughput"], kw["latency"]
             xt, xl = num(4 * k + 2), num(4 * k + 1)
-            ex_.oblige("block/entry-fields", z3.And(key.j == 4 * k, kw["mnemonic"][1] == 4 * k, ops.length == ncodes(4 * k),
+            ex_.oblige("block/entry-fields", z3.And(key.j == 4 * k, kw["mnemonic"][1] == 4 * k, ops.length == nops,
                                                    z3.Implies(z3.And(0 <= j, j < ops.length), z3.And(el[1][1] == 4 * k, el[1][2] == j)) if okel else False,
                                                    (real_term(tpv) == v_tp(xt)) if tpv is not None else z3.Not(ok_tp(xt)), z3.BoolVal(tpv is None) == z3.Not(ok_tp(xt)),
                                                    (real_term(ltv) == v_lt(xl)) if ltv is not None else z3.Not(ok_lt(xl)), z3.BoolVal(ltv is None) == z3.Not(ok_lt(xl))))
